@@ -116,7 +116,7 @@ func generate(r *run) {
 	o := r.o
 	wide := o.Thorough()
 	pats := basePatterns()
-	nRandom := o.Scale(250, 3000, 1500)
+	nRandom := o.Scale(250, 1800, 1500)
 	rg := o.Rng.Fork(1)
 	for i := 0; i < nRandom; i++ {
 		pats = append(pats, randomPattern(rg))
@@ -207,7 +207,7 @@ func generate(r *run) {
 		for _, m := range ms {
 			r.exprCase(&ExprCase{Method: m, URL: p, Subjects: subjectsFor(m, p)}, "method")
 		}
-		if i%4 == 0 || wide {
+		if i%4 == 0 || (wide && i%2 == 0) {
 			r.exprCase(&ExprCase{AnyMethod: true, URL: p, Subjects: subjectsFor("HEAD", p)}, "any-method")
 		}
 	}
